@@ -419,16 +419,21 @@ fn build_other(kind: &str, rng: &mut Rng, sim: &mut Sim, ck: &mut Checker, v6: b
             let peer: SocketAddr = if v6 { "[2001:db8::9:9]:9999".parse().unwrap() } else { "10.9.9.9:9999".parse().unwrap() };
             // a network that answers slowly makes the bootstrap last longer
             sim.lat_ms = if rng.chance(1, 2) { (5, 60) } else { (200, 450) };
+            // ... and a network that only comes up after 20..70 s makes the first attempts fail: the searches
+            // issued meanwhile wait that long in the queue (round-4 seed C16: a search's time budget ran from the
+            // moment it was requested)
+            let late = if rng.chance(1, 3) { Some(t0 + rng.range(20, 70) as u128 * S) } else { None };
             for i in 0..n {
                 let mut store = HashMap::new();
                 store.insert(ih.clone(), vec![peer]);
-                sim.peers.push(SimPeer { id: rng.bytes(20), addr: sim_addr(v6, i, 6881), policy: Policy::Good, store, token: vec![b't', i as u8], last_answer: None });
+                let policy = match late { Some(t) => Policy::GoodFrom(t), None => Policy::Good };
+                sim.peers.push(SimPeer { id: rng.bytes(20), addr: sim_addr(v6, i, 6881), policy, store, token: vec![b't', i as u8], last_answer: None });
             }
             let me = rng.bytes(20);
             let a = real_addr(v6, 0);
             sim.reals.push((0, me.clone(), a));
             let nodes: Vec<String> = sim.peers.iter().take(rng.range(1, n.min(10) as u64) as usize).map(|p| addr_str(&p.addr)).collect();
-            sim.end = t0 + 60 * S;
+            sim.end = t0 + if late.is_some() { 230 * S } else { 60 * S };
             sim.schedule(t0, format!("nnew 0 {} addr={} ro={} port={} routers=- nodes={}", hex(&me), addr_str(&a), rng.below(2), if rng.chance(1, 2) { "none".to_string() } else { rng.range(1, 65535).to_string() }, dash(&nodes)));
             let nsearch = rng.range(1, 5);
             for j in 0..nsearch {
